@@ -44,6 +44,7 @@ def run(ctx):
                 "node must respect the variable order, and a cache entry must be valid for its key.")
     n = estep.run(ctx, F, kinds=("zbdd",))
     estep.check_zbdd_restrict_base(ctx, F)
+    etaut.check_restrict_base_loop(ctx, F)
     ctx.floor("E-TABLE.step", "situations of the recursive step (set operations, subset0/subset1/change, apply_ite, restrict)", n, 250)
     ctx.explain("E-TABLE.skip: DiagramRules::skipped_cofactor of every kind (override or trait default) is interpreted and must "
                 "yield the cofactors of an edge w.r.t. a variable above its node under the kind's semantics of a skipped level "
@@ -70,6 +71,7 @@ def run(ctx):
                 "edge; ZBDD: (tautology(level + 1), Empty) as the first node of its chain); the default not_var is not(var).")
     n = ector.run(ctx, F, only=("zbdd",))
     ctx.floor("E-TABLE.ctor", "interpreted constructor bodies", n, 5)
+    ector.check_zbdd_var_chain(ctx, F)
     ctx.explain("E-TAUT: ZBDDCache::tautology(level) returns the chain entry covering exactly the levels from `level` down "
                 "(Base beyond the last level); post_reorder_mut (run on init, add_vars and after reordering) starts the chain "
                 "with Base, walks the levels bottom-up and appends node(level; prev, prev) per level, then stores the chain.")
